@@ -139,6 +139,8 @@ def world():
 
 
 def run(job, tier):
+    import symx.core as core
+    core.SOM_BLOWUP = 10 ** 6      # the degree-12 identities (MAC with 3 components) need the full expansion; jobs run in their own process
     return {"O1": run_bounds, "O2": run_shape, "O3": run_scale, "O4": run_collinear, "O5": run_divisors}[job["ob"]](job["cfg"], tier)
 
 
